@@ -595,18 +595,18 @@ Proof.
   destruct (build_at fs p) as [[k c]|] eqn:B; [|reflexivity]. apply build_at_pair in B as [-> _]. reflexivity.
 Qed.
 
-Lemma loaded_fst_snd fixed d : forall fs cf ld,
-  map fst (loaded_gen fixed fs cf ld d) = map snd (loaded_gen fixed fs cf ld d).
+Lemma loaded_fst_snd v d : forall fs cf ld,
+  map fst (loaded_gen v fs cf ld d) = map snd (loaded_gen v fs cf ld d).
 Proof.
   assert (O : forall fs p l l', map (@fst nat nat) l = map snd l' ->
              map fst (ocons (build_at fs p) l) = map snd (ocons (build_at fs p) l')).
   { intros fs p l l' H. destruct (build_at fs p) as [[k c]|] eqn:B; cbn [ocons map fst snd]; [|exact H].
     apply build_at_pair in B as [-> _]. rewrite H. reflexivity. }
   induction d as [|s r IH]; intros fs cf ld; [reflexivity|].
-  destruct s as [p k st how|p|j|p how par|c|c|dr b p|dr b|dr b a sp|p]; cbn [loaded_gen]; try apply IH; try (apply O, IH).
+  destruct s as [p k st how|p|j|p how par|c|c|dr b p|dr b|dr b a sp|p|dr b p]; cbn [loaded_gen]; try apply IH; try (apply O, IH).
   - destruct (Nat.eqb how 3); apply IH.
   - destruct (nth_error cf c); [apply O|]; apply IH.
-  - destruct (load_module fixed ld dr b) as [oc ld']. cbn [map]. rewrite build_slot_pair, IH. reflexivity.
+  - destruct (load_module v ld dr b (is_bare sp)) as [oc ld']. cbn [map]. rewrite build_slot_pair, IH. reflexivity.
 Qed.
 
 Lemma deploy_keys_certs d : deploy_keys d = deploy_certs d.
@@ -615,8 +615,12 @@ Proof. apply loaded_fst_snd. Qed.
 Lemma deploy_keys_certs_v0 d : deploy_keys_v0 d = deploy_certs_v0 d.
 Proof. apply loaded_fst_snd. Qed.
 
-Lemma deploy_keys_certs_both d : deploy_keys d = deploy_certs d /\ deploy_keys_v0 d = deploy_certs_v0 d.
-Proof. split; [apply deploy_keys_certs|apply deploy_keys_certs_v0]. Qed.
+Lemma deploy_keys_certs_v1 d : deploy_keys_v1 d = deploy_certs_v1 d.
+Proof. apply loaded_fst_snd. Qed.
+
+Lemma deploy_keys_certs_both d :
+  deploy_keys d = deploy_certs d /\ deploy_keys_v1 d = deploy_certs_v1 d /\ deploy_keys_v0 d = deploy_certs_v0 d.
+Proof. split; [apply deploy_keys_certs|split; [apply deploy_keys_certs_v1|apply deploy_keys_certs_v0]]. Qed.
 
 (* ---------- the model's state against the script read backwards (Spec) ---------- *)
 Lemma src_now_versions dr b before p : src_now dr b before = Some p -> In p (src_versions dr b before).
@@ -625,87 +629,169 @@ Proof.
   destruct s; cbn [src_now src_versions]; try exact IH.
   - destruct (same_file dr b dir base); [intros [= ->]; left; reflexivity|exact IH].
   - destruct (same_file dr b dir base); [discriminate|exact IH].
+  - destruct (same_file dr b dir base); [intros H; right; apply IH, H|exact IH].
 Qed.
 
-Lemma path_find_read c sp b d1 c1 : path_find c sp b = Some (d1, c1) -> cf_read c d1 b = Some c1.
+Lemma pkg_now_versions dr b before p : pkg_now dr b before = Some p -> In p (src_versions dr b before).
+Proof.
+  induction before as [|s r IH]; [discriminate|].
+  destruct s; cbn [pkg_now src_versions]; try exact IH.
+  - destruct (same_file dr b dir base); [intros H; right; apply IH, H|exact IH].
+  - destruct (same_file dr b dir base); [intros [= ->]; left; reflexivity|exact IH].
+Qed.
+
+Lemma path_find_read c k sp b d1 pk1 c1 :
+  path_find c k sp b = Some (d1, pk1, c1) -> cf_read (if pk1 then k else c) d1 b = Some c1.
 Proof.
   induction sp as [|d r IH]; [discriminate|]. cbn [path_find].
-  destruct (cf_read c d b) eqn:E; [intros [= <- <-]; exact E|exact IH].
+  destruct (cf_read k d b) eqn:E; [intros [= <- <- <-]; exact E|].
+  destruct (cf_read c d b) eqn:E2; [intros [= <- <- <-]; exact E2|exact IH].
 Qed.
 
 Definition st_files (ld : lstate) (before : list dstep) : Prop :=
-  forall d b, cf_read (cfiles ld) d b = src_now d b before.
+  (forall d b, cf_read (cfiles ld) d b = src_now d b before) /\
+  (forall d b, cf_read (pkgs ld) d b = pkg_now d b before).
 
 Lemma st_files_write ld before dr b p :
   st_files ld before -> st_files (cf_write ld dr b (Some p)) (DWrite dr b p :: before).
-Proof. intros H d b'. cbn [cf_write cfiles cf_read src_now]. unfold same_file. destruct (_ && _); [reflexivity|apply H]. Qed.
+Proof.
+  intros [H1 H2]. split; [|exact H2].
+  intros d b'. cbn [cf_write cfiles cf_read src_now]. unfold same_file. destruct (_ && _); [reflexivity|apply H1].
+Qed.
 
 Lemma st_files_unlink ld before dr b :
   st_files ld before -> st_files (cf_write ld dr b None) (DUnlink dr b :: before).
-Proof. intros H d b'. cbn [cf_write cfiles cf_read src_now]. unfold same_file. destruct (_ && _); [reflexivity|apply H]. Qed.
-
-Lemma load_module_cfiles fixed ld dr b : cfiles (snd (load_module fixed ld dr b)) = cfiles ld.
 Proof.
-  unfold load_module. destruct (mod_find (mods ld) b); [reflexivity|]. destruct (path_find _ _ b); reflexivity.
+  intros [H1 H2]. split; [|exact H2].
+  intros d b'. cbn [cf_write cfiles cf_read src_now]. unfold same_file. destruct (_ && _); [reflexivity|apply H1].
 Qed.
 
-(* what sys.modules holds is, for every module, something its OWN file has said *)
-Definition st_mods (ld : lstate) (before : list dstep) : Prop :=
-  forall b d0 c0, mod_find (mods ld) b = Some (d0, c0) -> In c0 (src_versions d0 b before).
-
-(* ... and, as long as no file is touched after a load of its base name, what that file still says *)
-Definition st_mods_fresh (ld : lstate) (before : list dstep) : Prop :=
-  forall b d0 c0, mod_find (mods ld) b = Some (d0, c0) ->
-    cf_read (cfiles ld) d0 b = Some c0 /\ base_loaded b before = true.
-
-(* one load, files_present: the CONFIG handed back is one the file asked for has said (or the load raises) *)
-Lemma load_module_own ld before dr b pn :
-  st_files ld before -> st_mods ld before -> src_now dr b before = Some pn ->
-  (forall p, fst (load_module true ld dr b) = Some p -> In p (src_versions dr b before))
-  /\ st_mods (snd (load_module true ld dr b)) before.
+Lemma st_files_pkg ld before dr b p :
+  st_files ld before -> st_files (pkg_write ld dr b p) (DWritePkg dr b p :: before).
 Proof.
-  intros HF HM Hn. assert (Hr : cf_read (cfiles ld) dr b = Some pn) by (rewrite HF; exact Hn).
-  unfold load_module. destruct (mod_find (mods ld) b) as [[d0 c0]|] eqn:M.
-  - cbn [fst snd]. split; [|intros b' d' c' H; apply HM; exact H].
-    intros p. unfold answer. rewrite Hr. destruct (Nat.eqb d0 dr) eqn:E.
-    + apply Nat.eqb_eq in E. subst d0. intros [= <-]. apply (HM b dr c0 M).
-    + destruct (cf_read (cfiles ld) d0 b); [|discriminate]. intros [= <-]. apply src_now_versions, Hn.
-  - cbn [path_find]. rewrite Hr. cbn [fst snd]. split.
-    + intros p. unfold answer. rewrite Hr, Nat.eqb_refl. intros [= <-]. apply src_now_versions, Hn.
-    + intros b' d' c'. cbn [mods mod_find]. destruct (Nat.eqb b b') eqn:E.
-      * apply Nat.eqb_eq in E. subst b'. intros [= <- <-]. apply src_now_versions, Hn.
+  intros [H1 H2]. split; [exact H1|].
+  intros d b'. cbn [pkg_write pkgs cf_read pkg_now]. unfold same_file. destruct (_ && _); [reflexivity|apply H2].
+Qed.
+
+Lemma load_module_files v ld dr b bare :
+  cfiles (snd (load_module v ld dr b bare)) = cfiles ld /\ pkgs (snd (load_module v ld dr b bare)) = pkgs ld.
+Proof.
+  unfold load_module. destruct (mod_find (mods ld) b); [split; reflexivity|]. destruct (path_find _ _ _ b); split; reflexivity.
+Qed.
+
+Lemma st_files_load v ld before dr b bare s :
+  st_files ld before ->
+  (forall x y, src_now x y (s :: before) = src_now x y before) ->
+  (forall x y, pkg_now x y (s :: before) = pkg_now x y before) ->
+  st_files (snd (load_module v ld dr b bare)) (s :: before).
+Proof.
+  intros [H1 H2] E1 E2. destruct (load_module_files v ld dr b bare) as [F1 F2]. unfold st_files. rewrite F1, F2.
+  split; intros x y; [rewrite E1; apply H1|rewrite E2; apply H2].
+Qed.
+
+(* the file or package a module came from, as the state holds it *)
+Definition origin (ld : lstate) (pk : bool) : cfsys := if pk then pkgs ld else cfiles ld.
+
+Lemma origin_versions ld before pk d b c :
+  st_files ld before -> cf_read (origin ld pk) d b = Some c -> In c (src_versions d b before).
+Proof.
+  intros [H1 H2]. destruct pk; cbn [origin]; [rewrite H2; apply pkg_now_versions|rewrite H1; apply src_now_versions].
+Qed.
+
+(* what sys.modules holds is, for every module, something its OWN file / package has said *)
+Definition st_mods (ld : lstate) (before : list dstep) : Prop :=
+  forall b d0 pk0 c0, mod_find (mods ld) b = Some (d0, pk0, c0) -> In c0 (src_versions d0 b before).
+
+(* ... and, as long as nothing is touched after a load of its base name, what it still says *)
+Definition st_mods_fresh (ld : lstate) (before : list dstep) : Prop :=
+  forall b d0 pk0 c0, mod_find (mods ld) b = Some (d0, pk0, c0) ->
+    cf_read (origin ld pk0) d0 b = Some c0 /\ base_loaded b before = true.
+
+(* the third branch of _load (581b4f03) and the second (ca0d12ee): whatever import_module found, as long as it is
+   something ITS source has said, what is handed back is something the source ASKED FOR has said - a bare name
+   must name a file that is there *)
+Lemma answer_own ld before dr b bare d0 pk0 c0 p :
+  st_files ld before -> In c0 (src_versions d0 b before) ->
+  (bare = true -> present (src_now dr b before) = true) ->
+  answer V2 ld dr b bare (d0, pk0, c0) = Some p -> In p (src_versions dr b before).
+Proof.
+  intros HF Hc Hb. unfold answer. destruct HF as [H1 H2]. rewrite H1.
+  destruct (src_now dr b before) as [cnow|] eqn:N.
+  - destruct (negb pk0 && Nat.eqb d0 dr) eqn:E.
+    + apply andb_true_iff in E as [_ E]. apply Nat.eqb_eq in E. subst d0. intros [= <-]. exact Hc.
+    + destruct (cf_read _ d0 b); [|discriminate]. intros [= <-]. apply src_now_versions, N.
+  - destruct bare; [specialize (Hb eq_refl); discriminate|]. cbn [orb].
+    destruct (Nat.eqb d0 dr) eqn:E; [|discriminate]. apply Nat.eqb_eq in E. subst d0. intros [= <-]. exact Hc.
+Qed.
+
+(* one load: the CONFIG handed back is one the source asked for has said (or the load raises) *)
+Lemma load_module_own ld before dr b bare :
+  st_files ld before -> st_mods ld before ->
+  (bare = true -> present (src_now dr b before) = true) ->
+  (forall p, fst (load_module V2 ld dr b bare) = Some p -> In p (src_versions dr b before))
+  /\ st_mods (snd (load_module V2 ld dr b bare)) before.
+Proof.
+  intros HF HM Hb. unfold load_module. destruct (mod_find (mods ld) b) as [[[d0 pk0] c0]|] eqn:M.
+  - cbn [fst snd]. split; [|intros b' d' pk' c' H; apply (HM b' d' pk' c'); exact H].
+    intros p. apply (answer_own ld before dr b bare d0 pk0 c0 p HF (HM b d0 pk0 c0 M) Hb).
+  - destruct (path_find (cfiles ld) (pkgs ld) (dr :: spath ld) b) as [[[d1 pk1] c1]|] eqn:P; cbn [fst snd].
+    + assert (Hc : In c1 (src_versions d1 b before)).
+      { apply path_find_read in P. apply (origin_versions ld before pk1 d1 b c1 HF). destruct pk1; exact P. }
+      split; [intros p; apply (answer_own ld before dr b bare d1 pk1 c1 p HF Hc Hb)|].
+      intros b' d' pk' c'. cbn [with_path mods mod_find]. destruct (Nat.eqb b b') eqn:E.
+      * apply Nat.eqb_eq in E. subst b'. intros [= <- <- <-]. exact Hc.
       * apply HM.
+    + split; [discriminate|]. intros b' d' pk' c' H. apply (HM b' d' pk' c'). exact H.
+Qed.
+
+Lemma answer_fresh ld before dr b bare d0 pk0 c0 pn :
+  st_files ld before -> cf_read (origin ld pk0) d0 b = Some c0 -> src_now dr b before = Some pn ->
+  answer V2 ld dr b bare (d0, pk0, c0) = Some pn.
+Proof.
+  intros [H1 H2] R N. unfold answer. rewrite H1, N. destruct pk0; cbn [negb andb origin] in *.
+  - rewrite R. reflexivity.
+  - destruct (Nat.eqb d0 dr) eqn:E.
+    + apply Nat.eqb_eq in E. subst d0. rewrite H1, N in R. symmetry. exact R.
+    + rewrite R. reflexivity.
 Qed.
 
 (* one load, files_present and no_reedit: the CONFIG handed back is what the file asked for says NOW *)
 Lemma load_module_fresh ld before dr b a sp pn :
   st_files ld before -> st_mods_fresh ld before -> src_now dr b before = Some pn ->
-  fst (load_module true ld dr b) = Some pn
-  /\ st_mods_fresh (snd (load_module true ld dr b)) (DLoadFile dr b a sp :: before).
+  fst (load_module V2 ld dr b (is_bare sp)) = Some pn
+  /\ st_mods_fresh (snd (load_module V2 ld dr b (is_bare sp))) (DLoadFile dr b a sp :: before).
 Proof.
-  intros HF HM Hn. assert (Hr : cf_read (cfiles ld) dr b = Some pn) by (rewrite HF; exact Hn).
-  unfold load_module. destruct (mod_find (mods ld) b) as [[d0 c0]|] eqn:M.
-  - cbn [fst snd]. destruct (HM b d0 c0 M) as [R0 _]. split.
-    + unfold answer. rewrite Hr. destruct (Nat.eqb d0 dr) eqn:E.
-      * apply Nat.eqb_eq in E. subst d0. rewrite R0 in Hr. exact Hr.
-      * rewrite R0. reflexivity.
-    + intros b' d' c' H. cbn [mods] in H. destruct (HM b' d' c' H) as [R1 L1]. split; [exact R1|].
+  intros HF HM Hn. unfold load_module. destruct (mod_find (mods ld) b) as [[[d0 pk0] c0]|] eqn:M.
+  - cbn [fst snd]. destruct (HM b d0 pk0 c0 M) as [R0 _]. split.
+    + apply (answer_fresh ld before dr b _ d0 pk0 c0 pn HF R0 Hn).
+    + intros b' d' pk' c' H. cbn [with_path mods] in H. destruct (HM b' d' pk' c' H) as [R1 L1]. split; [exact R1|].
       cbn [base_loaded]. rewrite L1. apply orb_true_r.
-  - cbn [path_find]. rewrite Hr. cbn [fst snd]. split.
-    + unfold answer. rewrite Hr, Nat.eqb_refl. reflexivity.
-    + intros b' d' c'. cbn [mods mod_find cfiles base_loaded]. destruct (Nat.eqb b b') eqn:E.
-      * apply Nat.eqb_eq in E. subst b'. intros [= <- <-]. split; [exact Hr|reflexivity].
-      * intros H. destruct (HM b' d' c' H) as [R1 L1]. rewrite L1. split; [exact R1|reflexivity].
+  - destruct (path_find (cfiles ld) (pkgs ld) (dr :: spath ld) b) as [[[d1 pk1] c1]|] eqn:P; cbn [fst snd].
+    + assert (R : cf_read (origin ld pk1) d1 b = Some c1) by (apply path_find_read in P; destruct pk1; exact P).
+      split; [apply (answer_fresh ld before dr b _ d1 pk1 c1 pn HF R Hn)|].
+      intros b' d' pk' c'. cbn [with_path mods mod_find base_loaded]. destruct (Nat.eqb b b') eqn:E.
+      * apply Nat.eqb_eq in E. subst b'. intros [= <- <- <-]. split; [exact R|reflexivity].
+      * intros H. destruct (HM b' d' pk' c' H) as [R1 L1]. rewrite L1. split; [exact R1|reflexivity].
+    + (* the file is there and dr is searched first: something is found *)
+      exfalso. cbn [path_find] in P. destruct HF as [H1 _]. rewrite H1, Hn in P.
+      destruct (cf_read (pkgs ld) dr b); discriminate.
 Qed.
 
-Lemma st_mods_fresh_touch ld before dr b v s :
+Lemma st_mods_fresh_touch ld ld' before b s :
   st_mods_fresh ld before -> base_loaded b before = false ->
   (forall b', base_loaded b' (s :: before) = base_loaded b' before) ->
-  st_mods_fresh (cf_write ld dr b v) (s :: before).
+  mods ld' = mods ld ->
+  (forall pk d' b', b' <> b -> cf_read (origin ld' pk) d' b' = cf_read (origin ld pk) d' b') ->
+  st_mods_fresh ld' (s :: before).
 Proof.
-  intros HM Hb Hs b' d' c' H. cbn [cf_write mods] in H. destruct (HM b' d' c' H) as [R L]. rewrite Hs. split; [|exact L].
-  cbn [cf_write cfiles cf_read]. destruct (Nat.eqb dr d' && Nat.eqb b b') eqn:E; [|exact R].
-  apply andb_true_iff in E as [_ E]. apply Nat.eqb_eq in E. subst b'. congruence.
+  intros HM Hb Hs Em Er b' d' pk' c' H. rewrite Em in H. destruct (HM b' d' pk' c' H) as [R L]. rewrite Hs. split; [|exact L].
+  rewrite Er; [exact R|]. intros ->. congruence.
+Qed.
+
+Lemma cf_read_other c dr b v d' b' : b' <> b -> cf_read (((dr, b), v) :: c) d' b' = cf_read c d' b'.
+Proof.
+  intros N. cbn [cf_read]. destruct (Nat.eqb dr d' && Nat.eqb b b') eqn:E; [|reflexivity].
+  apply andb_true_iff in E as [_ E]. apply Nat.eqb_eq in E. congruence.
 Qed.
 
 Lemma build_slot_spec fs before p :
@@ -713,7 +799,7 @@ Lemma build_slot_spec fs before p :
   build_slot fs (Some p) = (slot (last_install p before), slot (last_install p before)).
 Proof. intros H. unfold build_slot, build_at. rewrite H. destruct (last_install p before); reflexivity. Qed.
 
-Ltac side Hs Fs Ms := first [assumption | apply Hs; reflexivity | apply Fs; reflexivity | apply Ms; reflexivity].
+Ltac side Hs Fs Ms := first [assumption | apply Hs; reflexivity | apply Fs; intros; split; reflexivity | apply Ms; reflexivity].
 
 (* STRICT: as long as every file asked for exists and no file is touched after a load of its name, the pair an
    entity signs with and the certificate it publishes are the pair its own configuration names when it is built *)
@@ -729,11 +815,12 @@ Proof.
   induction d as [|s r IH]; intros fs cf ld before H HC HL HF HM GP GE; [split; reflexivity|].
   assert (Hs : forall s', (forall q, last_install q (s' :: before) = last_install q before) ->
                           forall q, fread fs q = last_install q (s' :: before)) by (intros s' E q; rewrite E; apply H).
-  assert (Fs : forall s', (forall x y, src_now x y (s' :: before) = src_now x y before) -> st_files ld (s' :: before))
-    by (intros s' E x y; rewrite E; apply HF).
+  assert (Fs : forall s', (forall x y, src_now x y (s' :: before) = src_now x y before /\
+                                       pkg_now x y (s' :: before) = pkg_now x y before) -> st_files ld (s' :: before)).
+  { intros s' E. destruct HF as [H1 H2]. split; intros x y; destruct (E x y) as [E1 E2]; [rewrite E1; apply H1|rewrite E2; apply H2]. }
   assert (Ms : forall s', (forall b', base_loaded b' (s' :: before) = base_loaded b' before) -> st_mods_fresh ld (s' :: before)).
-  { intros s' E b' d' c' M. destruct (HM b' d' c' M) as [R L]. rewrite E. auto. }
-  destruct s as [p k st how|p|j|p how par|c|c|dr b p|dr b|dr b a sp|p]; cbn [loaded_gen certs_from];
+  { intros s' E b' d' pk' c' M. destruct (HM b' d' pk' c' M) as [R L]. rewrite E. auto. }
+  destruct s as [p k st how|p|j|p how par|c|c|dr b p|dr b|dr b a sp|p|dr b p]; cbn [loaded_gen certs_from];
     cbn [files_present_from no_reedit_from] in GP, GE.
   - apply IH; try side Hs Fs Ms.
     intros q. cbn [fread last_install]. destruct (Nat.eqb p q); [reflexivity|apply H].
@@ -756,35 +843,41 @@ Proof.
   - apply IH; try side Hs Fs Ms.
   - apply andb_true_iff in GE as [Gb GE]. apply negb_true_iff in Gb.
     apply IH; try side Hs Fs Ms; [apply st_files_write; exact HF|].
-    apply st_mods_fresh_touch; [exact HM|exact Gb|reflexivity].
+    apply (st_mods_fresh_touch ld _ before b _ HM Gb); [reflexivity|reflexivity|].
+    intros pk d' b' N. destruct pk; cbn [origin cf_write cfiles pkgs]; [reflexivity|apply cf_read_other, N].
   - apply andb_true_iff in GE as [Gb GE]. apply negb_true_iff in Gb.
     apply IH; try side Hs Fs Ms; [apply st_files_unlink; exact HF|].
-    apply st_mods_fresh_touch; [exact HM|exact Gb|reflexivity].
+    apply (st_mods_fresh_touch ld _ before b _ HM Gb); [reflexivity|reflexivity|].
+    intros pk d' b' N. destruct pk; cbn [origin cf_write cfiles pkgs]; [reflexivity|apply cf_read_other, N].
   - apply andb_true_iff in GP as [Gn GP]. destruct (src_now dr b before) as [pn|] eqn:N; [|discriminate].
     destruct (load_module_fresh ld before dr b a sp pn HF HM N) as [L1 L2].
-    pose proof (load_module_cfiles true ld dr b) as L3.
-    destruct (load_module true ld dr b) as [oc ld']. cbn [fst snd] in L1, L2, L3. subst oc.
+    pose proof (st_files_load V2 ld before dr b (is_bare sp) (DLoadFile dr b a sp) HF
+                  (fun _ _ => eq_refl) (fun _ _ => eq_refl)) as L3.
+    destruct (load_module V2 ld dr b (is_bare sp)) as [oc ld']. cbn [fst snd] in L1, L2, L3. subst oc.
     rewrite (build_slot_spec fs before pn H). cbn [map fst snd cert_at].
     destruct (IH fs cf ld' (DLoadFile dr b a sp :: before)) as [A B]; try side Hs Fs Ms.
-    { intros x y. rewrite L3. apply HF. }
     rewrite A, B. split; reflexivity.
   - unfold build_at. rewrite H.
     destruct (IH fs cf ld (DFactory p :: before)) as [A B]; try side Hs Fs Ms.
     destruct (last_install p before); cbn [ocons map fst snd]; [rewrite A, B; split; reflexivity|split; assumption].
+  - apply andb_true_iff in GE as [Gb GE]. apply negb_true_iff in Gb.
+    apply IH; try side Hs Fs Ms; [apply st_files_pkg; exact HF|].
+    apply (st_mods_fresh_touch ld _ before b _ HM Gb); [reflexivity|reflexivity|].
+    intros pk d' b' N. destruct pk; cbn [origin pkg_write cfiles pkgs]; [apply cf_read_other, N|reflexivity].
 Qed.
 
 Lemma deploy_published d :
   files_present d = true -> no_reedit d = true -> deploy_keys d = published d /\ deploy_certs d = published d.
 Proof.
   intros GP GE. apply loaded_published_gen; try assumption;
-    [intros p; reflexivity|intros [|c]; reflexivity|reflexivity|intros x y; reflexivity|intros b d0 c0; discriminate].
+    [intros p; reflexivity|intros [|c]; reflexivity|reflexivity|split; intros x y; reflexivity|intros b d0 pk0 c0; discriminate].
 Qed.
 
 (* scripts without configuration files (all of rounds 1-4) meet both hypotheses *)
 Fixpoint no_files (d : list dstep) : bool :=
   match d with
   | [] => true
-  | (DWrite _ _ _ | DUnlink _ _ | DLoadFile _ _ _ _) :: _ => false
+  | (DWrite _ _ _ | DUnlink _ _ | DLoadFile _ _ _ _ | DWritePkg _ _ _) :: _ => false
   | _ :: r => no_files r
   end.
 
@@ -798,41 +891,43 @@ Qed.
 Lemma deploy_published_no_files d : no_files d = true -> deploy_keys d = published d /\ deploy_certs d = published d.
 Proof. intros H. destruct (no_files_guards d H []) as [A B]. apply deploy_published; assumption. Qed.
 
-(* OWN SOURCE: as long as every file asked for exists - edited since it was first loaded or not - the certificate
-   (= the key pair, deploy_keys_certs) of every entity is one its own configuration source accounts for *)
+(* OWN SOURCE: files that exist or not, packages, edited since they were first loaded or not - the certificate (= the
+   key pair, deploy_keys_certs) of every entity is one its own configuration source accounts for; the one hypothesis
+   left: a file asked for by its BARE name (no directory given) is there *)
 Lemma loaded_own_source_gen d : forall fs cf ld before,
   (forall p, fread fs p = last_install p before) ->
   (forall c, nth_error cf c = conf_path c before) ->
   length cf = nconf before ->
   st_files ld before -> st_mods ld before ->
-  files_present_from before d = true ->
+  bare_present_from before d = true ->
   own_source (accounted_from before d) (map snd (loaded fs cf ld d)).
 Proof.
   unfold loaded.
   induction d as [|s r IH]; intros fs cf ld before H HC HL HF HM GP; [exact I|].
   assert (Hs : forall s', (forall q, last_install q (s' :: before) = last_install q before) ->
                           forall q, fread fs q = last_install q (s' :: before)) by (intros s' E q; rewrite E; apply H).
-  assert (Fs : forall s', (forall x y, src_now x y (s' :: before) = src_now x y before) -> st_files ld (s' :: before))
-    by (intros s' E x y; rewrite E; apply HF).
+  assert (Fs : forall s', (forall x y, src_now x y (s' :: before) = src_now x y before /\
+                                       pkg_now x y (s' :: before) = pkg_now x y before) -> st_files ld (s' :: before)).
+  { intros s' E. destruct HF as [H1 H2]. split; intros x y; destruct (E x y) as [E1 E2]; [rewrite E1; apply H1|rewrite E2; apply H2]. }
   assert (Ms : forall s', (forall x y, src_versions x y (s' :: before) = src_versions x y before) -> st_mods ld (s' :: before)).
-  { intros s' E b' d' c' M. rewrite E. apply (HM b' d' c' M). }
+  { intros s' E b' d' pk' c' M. rewrite E. apply (HM b' d' pk' c' M). }
   assert (O : forall p s', (forall q, last_install q (s' :: before) = last_install q before) ->
-              (forall x y, src_now x y (s' :: before) = src_now x y before) ->
+              (forall x y, src_now x y (s' :: before) = src_now x y before /\ pkg_now x y (s' :: before) = pkg_now x y before) ->
               (forall x y, src_versions x y (s' :: before) = src_versions x y before) ->
               (forall c, conf_path c (s' :: before) = conf_path c before) -> nconf (s' :: before) = nconf before ->
-              files_present_from (s' :: before) r = true ->
+              bare_present_from (s' :: before) r = true ->
               own_source (ocons (option_map (fun k => [k]) (last_install p before)) (accounted_from (s' :: before) r))
-                         (map snd (ocons (build_at fs p) (loaded_gen true fs cf ld r)))).
+                         (map snd (ocons (build_at fs p) (loaded_gen V2 fs cf ld r)))).
   { intros p s' E1 E2 E3 E4 E5 G. unfold build_at. rewrite H.
-    assert (R : own_source (accounted_from (s' :: before) r) (map snd (loaded_gen true fs cf ld r))).
+    assert (R : own_source (accounted_from (s' :: before) r) (map snd (loaded_gen V2 fs cf ld r))).
     { apply IH; [apply Hs, E1|intros c; rewrite E4; apply HC|rewrite E5; exact HL|apply Fs, E2|apply Ms, E3|exact G]. }
     destruct (last_install p before) as [k|]; cbn [ocons option_map map snd own_source]; [|exact R].
     split; [right; left; reflexivity|exact R]. }
-  destruct s as [p k st how|p|j|p how par|c|c|dr b p|dr b|dr b a sp|p]; cbn [loaded_gen accounted_from];
-    cbn [files_present_from] in GP.
+  destruct s as [p k st how|p|j|p how par|c|c|dr b p|dr b|dr b a sp|p|dr b p]; cbn [loaded_gen accounted_from];
+    cbn [bare_present_from] in GP.
   - apply IH; try side Hs Fs Ms.
     intros q. cbn [fread last_install]. destruct (Nat.eqb p q); [reflexivity|apply H].
-  - apply O; try reflexivity; exact GP.
+  - apply O; try reflexivity; [intros; split; reflexivity|exact GP].
   - apply IH; try side Hs Fs Ms.
   - destruct (Nat.eqb how 3) eqn:E3.
     + apply IH; try side Hs Fs Ms; [|rewrite upd_length; cbn [nconf]; rewrite E3; exact HL].
@@ -842,33 +937,57 @@ Proof.
     + apply IH; try side Hs Fs Ms; [|rewrite app_length; cbn [nconf length]; rewrite E3, HL; apply Nat.add_1_r].
       intros c. cbn [conf_path]. rewrite E3, nth_error_snoc, HL. destruct (Nat.eqb (nconf before) c); [reflexivity|apply HC].
   - rewrite HC. destruct (conf_path c before) as [p|]; cbn [cert_at].
-    + apply O; try reflexivity; exact GP.
+    + apply O; try reflexivity; [intros; split; reflexivity|exact GP].
     + cbn [option_map ocons]. apply IH; try side Hs Fs Ms.
   - apply IH; try side Hs Fs Ms.
   - apply IH; try side Hs Fs Ms; [apply st_files_write; exact HF|].
-    intros b' d' c' M. cbn [cf_write mods] in M. specialize (HM b' d' c' M). cbn [src_versions].
+    intros b' d' pk' c' M. cbn [cf_write mods] in M. specialize (HM b' d' pk' c' M). cbn [src_versions].
     destruct (same_file d' b' dr b); [right|]; exact HM.
   - apply IH; try side Hs Fs Ms. apply st_files_unlink; exact HF.
-  - apply andb_true_iff in GP as [Gn GP]. destruct (src_now dr b before) as [pn|] eqn:N; [|discriminate].
-    destruct (load_module_own ld before dr b pn HF HM N) as [L1 L2].
-    pose proof (load_module_cfiles true ld dr b) as L3.
-    destruct (load_module true ld dr b) as [oc ld']. cbn [fst snd] in L1, L2, L3. cbn [map own_source]. split.
+  - apply andb_true_iff in GP as [Gn GP].
+    assert (Hb : is_bare sp = true -> present (src_now dr b before) = true).
+    { intros E. rewrite E in Gn. exact Gn. }
+    destruct (load_module_own ld before dr b (is_bare sp) HF HM Hb) as [L1 L2].
+    pose proof (st_files_load V2 ld before dr b (is_bare sp) (DLoadFile dr b a sp) HF
+                  (fun _ _ => eq_refl) (fun _ _ => eq_refl)) as L3.
+    destruct (load_module V2 ld dr b (is_bare sp)) as [oc ld']. cbn [fst snd] in L1, L2, L3. cbn [map own_source]. split.
     + destruct oc as [p|]; [|left; reflexivity]. specialize (L1 p eq_refl).
       rewrite (build_slot_spec fs before p H). cbn [snd].
       destruct (last_install p before) as [k|] eqn:LI; [|left; reflexivity]. right.
       apply in_flat_map. exists p. split; [exact L1|]. rewrite LI. left. reflexivity.
-    + apply IH; try side Hs Fs Ms. intros x y. rewrite L3. apply HF.
-  - apply O; try reflexivity; exact GP.
+    + apply IH; try side Hs Fs Ms.
+  - apply O; try reflexivity; [intros; split; reflexivity|exact GP].
+  - apply IH; try side Hs Fs Ms; [apply st_files_pkg; exact HF|].
+    intros b' d' pk' c' M. cbn [pkg_write mods] in M. specialize (HM b' d' pk' c' M). cbn [src_versions].
+    destruct (same_file d' b' dr b); [right|]; exact HM.
 Qed.
 
-Lemma deploy_own_source d : files_present d = true -> own_source (accounted d) (deploy_certs d).
+Lemma deploy_own_source d : bare_present d = true -> own_source (accounted d) (deploy_certs d).
 Proof.
   intros GP. apply loaded_own_source_gen; try assumption;
-    [intros p; reflexivity|intros [|c]; reflexivity|reflexivity|intros x y; reflexivity|intros b d0 c0; discriminate].
+    [intros p; reflexivity|intros [|c]; reflexivity|reflexivity|split; intros x y; reflexivity|intros b d0 pk0 c0; discriminate].
 Qed.
 
-Lemma deploy_own_source_keys d : files_present d = true -> own_source (accounted d) (deploy_keys d).
+Lemma deploy_own_source_keys d : bare_present d = true -> own_source (accounted d) (deploy_keys d).
 Proof. intros H. rewrite deploy_keys_certs. apply deploy_own_source, H. Qed.
+
+(* a script that gives a directory with every file name meets the hypothesis *)
+Fixpoint no_bare (d : list dstep) : bool :=
+  match d with
+  | [] => true
+  | DLoadFile _ _ _ sp :: r => negb (is_bare sp) && no_bare r
+  | _ :: r => no_bare r
+  end.
+
+Lemma no_bare_present d : no_bare d = true -> forall before, bare_present_from before d = true.
+Proof.
+  induction d as [|s r IH]; intros H before; [reflexivity|].
+  destruct s; cbn [no_bare] in H; cbn [bare_present_from]; try (apply IH; exact H).
+  apply andb_true_iff in H as [H1 H2]. rewrite H1. cbn [orb andb]. apply IH, H2.
+Qed.
+
+Lemma deploy_own_source_no_bare d : no_bare d = true -> own_source (accounted d) (deploy_keys d).
+Proof. intros H. apply deploy_own_source_keys. apply no_bare_present, H. Qed.
 
 Lemma own_source_b_iff al : forall certs, own_source_b al certs = true <-> own_source al certs.
 Proof.
@@ -884,18 +1003,19 @@ Qed.
 Definition forget_origin (s : dstep) : dstep :=
   match s with
   | DConf p how par => if Nat.eqb how 3 then s else DConf p 0 0
-  | DLoadFile dr b _ _ => DLoadFile dr b 0 0
+  | DLoadFile dr b _ sp => DLoadFile dr b 0 (if is_bare sp then 4 else 0)
   | _ => s
   end.
 
-Lemma loaded_forget_origin fixed d : forall fs cf ld,
-  loaded_gen fixed fs cf ld (map forget_origin d) = loaded_gen fixed fs cf ld d.
+Lemma loaded_forget_origin v d : forall fs cf ld,
+  loaded_gen v fs cf ld (map forget_origin d) = loaded_gen v fs cf ld d.
 Proof.
   induction d as [|s r IH]; intros fs cf ld; [reflexivity|].
-  destruct s as [p k st how|p|j|p how par|c|c|dr b p|dr b|dr b a sp|p]; cbn [map forget_origin loaded_gen];
+  destruct s as [p k st how|p|j|p how par|c|c|dr b p|dr b|dr b a sp|p|dr b p]; cbn [map forget_origin loaded_gen];
     try (rewrite !IH; reflexivity).
   - destruct (Nat.eqb how 3) eqn:E3; cbn [loaded_gen]; [rewrite E3|cbn [Nat.eqb]]; apply IH.
-  - destruct (load_module fixed ld dr b) as [oc ld']. rewrite IH. reflexivity.
+  - replace (is_bare (if is_bare sp then 4 else 0)) with (is_bare sp) by (destruct (is_bare sp); reflexivity).
+    destruct (load_module v ld dr b (is_bare sp)) as [oc ld']. rewrite IH. reflexivity.
 Qed.
 
 Lemma lineage_irrelevant d :
@@ -928,7 +1048,7 @@ Section Deploy.
      accounts for, and every signature verifies under the certificates of exactly the entities that hold the
      caller's pair *)
   Lemma deploy_source_pool_holds d g ps ws wsched :
-    files_present d = true ->
+    bare_present d = true ->
     own_source (accounted d) (deploy_certs d) /\
     spec sigv verify {| keys := deploy_certs d; gon := g; progs := ps; sched := wsched |}
          (observe_all sigv verify (deploy_certs d) (outs sigv (dfinal d g ps ws wsched))).
@@ -1058,22 +1178,60 @@ Example second_tenant_edits_seen :
                 DLoadFile 1 0 0 0; DWrite 1 0 2; DLoadFile 1 0 0 0] = [10; 20; 30].
 Proof. vm_compute. reflexivity. Qed.
 
-(* the loader as it is (finding C20-F3): a configuration file that does NOT exist is answered by the module of that
-   base name loaded before from another directory - the entity is a clone of the other tenant *)
+(* a configuration file that does NOT exist (finding C20-F3, fixed by 581b4f03): before, it was answered by the module
+   of that base name loaded before from another directory - the entity was a clone of the other tenant; now the load
+   raises: a slot without entity *)
 Definition missing_deploy : list dstep := [DInstall 0 10 7 0; DWrite 0 0 0; DLoadFile 0 0 0 0; DLoadFile 1 0 0 0].
 
 Example missing_witness :
-  files_present missing_deploy = false /\ deploy_certs missing_deploy = [10; 10] /\ accounted missing_deploy = [[10]; []].
-Proof. vm_compute. auto. Qed.
+  files_present missing_deploy = false /\ bare_present missing_deploy = true /\
+  deploy_certs missing_deploy = [10; 0] /\ deploy_certs_v1 missing_deploy = [10; 10] /\
+  accounted missing_deploy = [[10]; []].
+Proof. vm_compute. auto 10. Qed.
 
-Lemma loader_missing_refuted : exists d, ~ own_source (accounted d) (deploy_certs d).
-Proof. exists missing_deploy. intros H. apply own_source_b_iff in H. vm_compute in H. discriminate. Qed.
+Lemma loader_missing_v1_refuted : exists d, bare_present d = true /\ ~ own_source (accounted d) (deploy_certs_v1 d).
+Proof.
+  exists missing_deploy. split; [reflexivity|]. intros H. apply own_source_b_iff in H. vm_compute in H. discriminate.
+Qed.
 
 (* ... or by the file of that name in a directory an EARLIER load left on sys.path *)
 Example missing_via_sys_path :
-  deploy_certs [DInstall 0 10 7 0; DWrite 0 0 0; DWrite 0 1 0; DLoadFile 0 0 0 0; DLoadFile 1 1 0 0] = [10; 10].
-Proof. vm_compute. reflexivity. Qed.
+  let d := [DInstall 0 10 7 0; DWrite 0 0 0; DWrite 0 1 0; DLoadFile 0 0 0 0; DLoadFile 1 1 0 0] in
+  deploy_certs_v1 d = [10; 10] /\ deploy_certs d = [10; 0].
+Proof. vm_compute. auto. Qed.
 
 (* before anything of that name was loaded, and with no directory on sys.path that has it, the load raises *)
 Example missing_raises : deploy_certs [DInstall 0 10 7 0; DWrite 0 0 0; DLoadFile 1 0 0 0; DLoadFile 0 0 0 0] = [0; 10].
+Proof. vm_compute. reflexivity. Qed.
+
+(* what remains: a file asked for by its BARE name (spelling 4: no directory given - the working directory is
+   directory 1) that is not there is still answered by the module of that name loaded from directory 0: the
+   hypothesis bare_present of the own-source theorem cannot be dropped *)
+Definition bare_missing_deploy : list dstep := [DInstall 0 10 7 0; DWrite 0 0 0; DLoadFile 0 0 0 0; DLoadFile 1 0 0 4].
+
+Example bare_missing_witness :
+  bare_present bare_missing_deploy = false /\ deploy_certs bare_missing_deploy = [10; 10] /\
+  accounted bare_missing_deploy = [[10]; []].
+Proof. vm_compute. auto. Qed.
+
+Lemma loader_bare_missing_refuted : exists d, ~ own_source (accounted d) (deploy_certs d).
+Proof. exists bare_missing_deploy. intros H. apply own_source_b_iff in H. vm_compute in H. discriminate. Qed.
+
+(* a configuration given as a PACKAGE directory b/conf/__init__.py (pair 20) beside tenant a's file a/conf.py (pair 10):
+   loaded first, the package is the module of that name and keeps answering for directory b *)
+Example package_first :
+  deploy_certs [DInstall 0 10 7 0; DInstall 1 20 7 0; DWrite 0 0 0; DWritePkg 1 0 1; DLoadFile 1 0 0 0; DLoadFile 0 0 0 0;
+                DLoadFile 1 0 0 1] = [20; 10; 20].
+Proof. vm_compute. reflexivity. Qed.
+
+(* loaded after a's file, the package is never looked at: import_module answers a's module, which lies outside b -
+   the load raises (no entity; not a clone of a) *)
+Example package_after_file :
+  let d := [DInstall 0 10 7 0; DInstall 1 20 7 0; DWrite 0 0 0; DWritePkg 1 0 1; DLoadFile 0 0 0 0; DLoadFile 1 0 0 0] in
+  deploy_certs d = [10; 0] /\ deploy_certs_v1 d = [10; 10] /\ accounted d = [[10]; [20]].
+Proof. vm_compute. auto. Qed.
+
+(* file and package of one name in one directory: importlib finds the package, _load executes the file *)
+Example package_and_file :
+  deploy_certs [DInstall 0 10 7 0; DInstall 1 20 7 0; DWritePkg 0 0 1; DWrite 0 0 0; DLoadFile 0 0 0 0] = [10].
 Proof. vm_compute. reflexivity. Qed.
